@@ -118,7 +118,8 @@ Inductive out :=
 | Nx (tok : list Z) (tag : Z)                              (* message passed on to the connection's own handler *)
 | RegRet (id : nat) (cls : Z)     (* NewObservation returned: 0 ok, 1 ok but peer does not observe (entry removed),
                                      2 unexpected code, 3 token already in use, 5 empty token *)
-| CanRet (id : nat) (cls : Z).    (* Cancel returned: 0 nothing to do, 1 deregistered, 2 deregistration refused *)
+| CanRet (id : nat) (cls : Z).    (* Cancel returned: 0 nothing to do (nil), 1 deregistered (nil), 2 deregistration answered
+                                     with an unexpected code (error), 3 the deregistration exchange failed (error) *)
 
 Definition code_ok (c : Z) : bool := (c =? codeContent) || (c =? codeValid).
 
@@ -160,8 +161,26 @@ Definition reg (s : st) (tok : list Z) : st * list out :=
       end
   end.
 
-(* Observation.Cancel on the object returned by registration id; [code] is the
-   code of the answer to the deregistration request. *)
+(* Observation.Cancel on the object returned by registration id.  cleanUp() comes first: when the
+   token's key is no longer in the table there is nothing to do (nil); otherwise the entry is
+   removed and the deregistration request (GET, Observe: 1) is sent through [do].  [cls] is how
+   Cancel returns after that: 1 the request was answered 2.05 / 2.03, 2 it was answered with
+   another code (error), 3 the exchange itself failed -- [do] returned an error (context
+   cancelled or expired, request or answer lost, write failure) -- and Cancel returns that error.
+   In no case is the entry put back. *)
+Definition cancel_with (s : st) (id : nat) (cls : Z) : st * list out :=
+  match nth_error (regs s) id with
+  | None => (s, [])
+  | Some tok =>
+      let k := crc64 tok in
+      match tget k (tbl s) with
+      | None => (s, [CanRet id 0])
+      | Some _ => (mkSt (tdel k (tbl s)) (regs s), [CanRet id cls])
+      end
+  end.
+
+(* [code] is the code of the answer to the deregistration request; this is
+   [cancel_with s id (if code_ok code then 1 else 2)], written out *)
 Definition cancel (s : st) (id : nat) (code : Z) : st * list out :=
   match nth_error (regs s) id with
   | None => (s, [])
@@ -173,16 +192,25 @@ Definition cancel (s : st) (id : nat) (code : Z) : st * list out :=
       end
   end.
 
+(* the deregistration exchange failed *)
+Definition cancel_err (s : st) (id : nat) : st * list out := cancel_with s id 3.
+
 Inductive ev :=
 | EReg (tok : list Z)              (* Observe() called; the request carries this token *)
 | EMsg (m : msg) (now : Z)         (* a message from the peer is processed at time now *)
-| ECancel (id : nat) (code : Z).   (* Cancel() on registration id, deregistration answered with code *)
+| ECancel (id : nat) (code : Z)    (* Cancel() on registration id, deregistration answered with code *)
+| ECancelErr (id : nat)            (* Cancel() on registration id, the deregistration exchange fails *)
+| EQuiet.                          (* a message from the peer that is consumed below the observation layer
+                                      (a block of a block-wise transfer in progress, a message the
+                                      block-wise layer refuses): Handler.Handle is not called *)
 
 Definition step (dec : msg -> option Z) (s : st) (e : ev) : st * list out :=
   match e with
   | EReg tok => reg s tok
   | EMsg m now => handle_msg dec s m now
   | ECancel id code => cancel s id code
+  | ECancelErr id => cancel_err s id
+  | EQuiet => (s, [])
   end.
 
 Definition trace := list (ev * list out).
